@@ -224,6 +224,14 @@ def _case(draw):
             ]
         else:
             spec = draw(c05.kern_font())
+        if F.chance(draw, 1, 4):
+            # vertical metrics with only two distinct vertical origins: ties in "the most frequent origin" (VORG default) are likely
+            spec.setdefault("info", {}).update({"openTypeVheaVertTypoAscender": 500, "openTypeVheaVertTypoDescender": -500, "openTypeVheaVertTypoLineGap": 0})
+            vo = draw(st.sampled_from([[880, 750], [880, 800], [800, 750]]))
+            for k, g in enumerate(spec["glyphs"]):
+                g["height"] = 1000
+                g["verticalOrigin"] = vo[k % 2]
+            spec["_vertical"] = True
         spec = _full_order(spec)
         source = {"kind": "font", "spec": spec}
         names = [g["name"] for g in spec["glyphs"] if g["name"] != ".notdef"]
@@ -254,6 +262,9 @@ def _case(draw):
         # "compile twice": the very same call (and, in the history run, the very same option objects) repeated
         ops[draw(st.integers(1, len(ops) - 1))] = json.loads(json.dumps(ops[0]))
     config = draw(st.sampled_from(["other-lib", "disk-same", "disk-other-writer", "disk-other-reader", "inplace", "inplace", "inplace-twice"]))
+    vertical = src.pop("_vertical", False)
+    if vertical and "compileOTF" not in [o["fn"] for o in ops]:
+        ops[0] = {"fn": "compileOTF", "opts": {}}
     if src.pop("_contextual", False):
         config = draw(st.sampled_from(["inplace", "inplace", "disk-same", "other-lib"]))
         ops[0]["opts"].pop("featureWriters", None)
@@ -295,8 +306,8 @@ def run_case(case, ctx):
     for i, op in enumerate(case["ops"]):
         for w in ws:
             w.send({"source": source, "module": module, "op": op})
-        for w in ws:
-            r = w.recv()
+        answers = [(w, w.recv()) for w in ws]  # read every answer before judging: a worker left with an unread answer would desynchronise the following cases
+        for w, r in answers:
             got = r.get("digests") if "digests" in r else "exc:" + r["exc"].split(":")[0]
             if got != ref[i]:
                 raise Violation("output depends on the string hash seed", op=op, hash_seed=w.hs, reference=ref[i], got=got)
@@ -359,6 +370,8 @@ def run_case(case, ctx):
         ctx.label("designspace-fontinfo-override")
     if any("ftConfig" in op["opts"] for op in case["ops"]):
         ctx.label("ftConfig")
+    if "openTypeVheaVertTypoAscender" in src.get("info", {}):
+        ctx.label("vertical-metrics-with-tied-origins")
     if len(src.get("groups", {})) >= 16 and any(v for op in case["ops"] for v in op["opts"].get("ftConfig", {}).values()):
         ctx.label("gpos-compaction-on-sparse-class-kerning")
     nmark = len({a["name"] for g in src["glyphs"] for a in g.get("anchors", []) if a["name"].startswith("_")})
